@@ -498,7 +498,19 @@ func ruleCarryOver(r *Run) {
 		}
 		return false
 	}
-	q := pathQuery{fn: fn, start: rn, target: isReturn, barrier: isSave}
+	// a return that ends the stream for good (a certainly non-nil error: io.EOF at the end of the body, an error
+	// for a truncated message) is followed by no further read: nothing needs to be carried over
+	continues := func(in ssa.Instruction) bool {
+		rt, ok := in.(*ssa.Return)
+		if !ok {
+			return false
+		}
+		if len(rt.Results) == 3 && isFreshError(rt.Results[2]) {
+			return false
+		}
+		return true
+	}
+	q := pathQuery{fn: fn, start: rn, target: continues, barrier: isSave}
 	if w, _ := q.find(); w != nil {
 		r.bad("(*streamHTTP).readMsg/tail-saved", rn.Pos(), "after ReadNext there is a path to a return on which the bytes read past the message (dst[n:]) are not saved into s.rbuf: the start of the next message is lost (%s)", p.describePath(w))
 	} else {
